@@ -13,7 +13,8 @@
 //
 // (writes/closes/fsyncs whose descriptor is an anonymous inode — the Go runtime's
 // eventfd / epoll wake-ups, whose count depends on timing — are not file-system calls
-// and are not counted.) Every counted call is recorded at its syscall-ENTRY stop with
+// and are not counted; neither are writes to the program's stdout/stderr when this tool
+// redirected them to /dev/null: timing-dependent progress messages that touch no file.) Every counted call is recorded at its syscall-ENTRY stop with
 // the thread id, the decoded path / descriptor target and flags.
 //
 // With -kill N the whole thread group (and every traced child) is SIGKILLed while the
@@ -203,6 +204,9 @@ func main() {
 	}
 }
 
+// stdioIsDevNull is true when both stdout and stderr of the program go to /dev/null.
+var stdioIsDevNull bool
+
 func openOut(p string) *os.File {
 	if p == "" {
 		f, _ := os.OpenFile("/dev/null", os.O_WRONLY, 0)
@@ -224,6 +228,7 @@ func run(args []string, dir, stdout, stderr string, killAt int) (tr trace) {
 	}
 	devnull, _ := os.Open("/dev/null")
 	so, se := openOut(stdout), openOut(stderr)
+	stdioIsDevNull = stdout == "" && stderr == ""
 	pid, err := syscall.ForkExec(bin, args, &syscall.ProcAttr{
 		Dir:   dir,
 		Env:   os.Environ(),
@@ -420,6 +425,11 @@ func decode(tid, pid int, d sysdesc, si *syscallInfo) (c call, counted bool) {
 		c.FdTo = fdTarget(tid, c.Fd)
 		if strings.HasPrefix(c.FdTo, "anon_inode:") {
 			return c, false // runtime wake-ups (eventfd/epoll): not a file-system call
+		}
+		if c.FdTo == "/dev/null" && (c.Fd == 1 || c.Fd == 2) && stdioIsDevNull {
+			// the program's own stdout/stderr, which this tool redirected to /dev/null:
+			// progress messages are timing dependent ("still compiling…") and touch no file
+			return c, false
 		}
 		switch d.name {
 		case "write", "pwrite64":
